@@ -89,13 +89,23 @@ def rotate_orbs(ctx):
     ctx.ob("KIND-2", "rotate_orbs: the rotation matrix enters through C and C^T only (congruence, no inverse)", not inverses,
            f"{show(inverses[0], maxdepth=2)[:60]} is applied: C^-1 X C equals C^T X C for orthogonal C only" if inverses
            else "no inverse of mo_coeff", fi)
+    # the caller rotates trial orbitals and walkers with the matrix it passes in: a factor of it (the Q of a QR, singular /
+    # eigen vectors) spans the same space in another basis (column signs, order), so rotating the Hamiltonian with that
+    # factor puts it in a different basis than everything else
+    factors = [x for x in subterms(R) if x.op == "call" and (_afn(x) or "") in ("linalg.qr", "linalg.svd", "linalg.eigh",
+                                                                                 "linalg.eig", "linalg.cholesky")
+               and any(y is sym("mo_coeff") for a_ in _cp(x)[1] for y in subterms(a_))]
+    if factors:
+        ctx.ob("KIND-2", "rotate_orbs: the rotation applied is the matrix the caller passed", False,
+               f"{show(factors[0], maxdepth=2)[:60]} replaces mo_coeff by one of its factors: C D with D != 1 in general, while "
+               f"the caller keeps rotating orbitals and walkers with C", fi)
     # one rotation matrix only
     mats = {x.uid for x in subterms(R) if x.op == "sym" and x.args[0] not in ("ham_data", "self")}
     ctx.ob("KIND-2", "rotate_orbs: a single rotation matrix is applied on both sides", mats == {sym("mo_coeff").uid},
            f"{len(mats)} matrix symbol(s)", fi)
 
 
-def builders(ctx):
+def builders(ctx, only_auto: bool = False):
     p = ctx.p
     ev = trial_evaluator(p)
     norb = mk("attr", SELF, "norb")
@@ -118,6 +128,10 @@ def builders(ctx):
         _report(ctx, eng, e.fi, "orbital axes contract with orbital axes", min_sites)
 
     base = {h1: ("S", "O", "O"), chol: ("G", "F")}
+    run_one("wave_function_auto", "_build_measurement_intermediates", dict(base),
+            lambda e: [("normal_ordering_term", getitem(e.result, const("normal_ordering_term")), ("O", "O"))], min_sites=1)
+    if only_auto:
+        return
     run_one("rhf", "_build_measurement_intermediates", {**base, mo: ("O", "E")},
             lambda e: [("rot_h1", getitem(e.result, const("rot_h1")), ("E", "O")),
                        ("rot_chol", getitem(e.result, const("rot_chol")), ("G", "E", "O"))])
